@@ -1,36 +1,57 @@
 #!/usr/bin/env python3
-"""Run the quick (or given tier) check of the property each seeded change breaks, with the change applied to /repo,
-and record the outcome in seeded/<id>/meta.json.  usage: tools_seedmatrix.py [--tier quick|thorough] [id ...]"""
-import json, os, subprocess, sys, time
+"""Run the check of the property each seeded change breaks against a scratch copy of /repo with the change applied
+(equivalent to: git -C /repo apply <patch>; ./check <prop>; git -C /repo checkout -- . — but /repo itself is not
+touched, so several changes can be tried at once), and record the outcome in seeded/<id>/meta.json.
+usage: tools_seedmatrix.py [--tier quick|thorough] [--jobs N] [id ...]"""
+import concurrent.futures as cf, json, os, shutil, subprocess, sys, tempfile, time
 V = '/verif'
-tier = 'quick'
+tier = 'quick'; jobs = 2
 args = sys.argv[1:]
-if args[:1] == ['--tier']:
-    tier = args[1]; args = args[2:]
+while args[:1] and args[0].startswith('--'):
+    if args[0] == '--tier': tier = args[1]
+    if args[0] == '--jobs': jobs = int(args[1])
+    args = args[2:]
 ids = args or sorted(os.listdir(os.path.join(V, 'seeded')))
-assert subprocess.run(['git', '-C', '/repo', 'status', '--porcelain'], capture_output=True, text=True).stdout.strip() == '', '/repo not clean'
-for sid in ids:
+
+def one(sid):
     d = os.path.join(V, 'seeded', sid)
     meta = json.load(open(os.path.join(d, 'meta.json')))
     prop = meta['breaks_property']
-    patch = os.path.join(d, 'patch.diff')
-    if subprocess.run(['git', '-C', '/repo', 'apply', '--check', patch]).returncode != 0:
-        print(sid, 'PATCH DOES NOT APPLY'); continue
-    subprocess.run(['git', '-C', '/repo', 'apply', patch], check=True)
-    t0 = time.time()
+    scratch = tempfile.mkdtemp(prefix='seedrepo-%s-' % sid)
     try:
-        p = subprocess.run(['./check', prop, '--tier', tier], cwd=V, capture_output=True, text=True, timeout=3600)
-        out, rc = p.stdout, p.returncode
-    except subprocess.TimeoutExpired:
-        out, rc = 'TIMEOUT', 99
+        subprocess.run('git -C /repo archive HEAD | tar -x -C %s' % scratch, shell=True, check=True)
+        if subprocess.run(['patch', '-p1', '-s', '-d', scratch, '-i', os.path.join(d, 'patch.diff')]).returncode != 0:
+            return sid, prop, None
+        env = dict(os.environ, VERIF_REPO=scratch, VERIF_EVIDENCE_DIR=os.path.join(scratch, 'evidence'), VERIF_KANI_JOBS='6')
+        t0 = time.time()
+        try:
+            p = subprocess.run(['./check', prop, '--tier', tier], cwd=V, capture_output=True, text=True, timeout=5400, env=env)
+            out, rc = p.stdout, p.returncode
+        except subprocess.TimeoutExpired:
+            out, rc = 'TIMEOUT', 99
+        obs = [l.strip() for l in out.split('\n') if l.strip().startswith('failed obligation:')]
+        viol = [l.strip() for l in out.split('\n') if l.startswith('VIOLATION')]
+        und = [l.strip()[:300] for l in out.split('\n') if l.startswith('UNDECIDED')]
+        wit = None
+        for l in viol:
+            rp = l.split('replay=')[1].split()[0]
+            try:
+                w = json.load(open(rp)).get('witness')
+                if w: wit = w; break
+            except Exception:
+                pass
+        res = {'tier': tier, 'exit': rc, 'wall_s': round(time.time() - t0), 'verdict': {0: 'MISSED (check passed)', 1: 'DETECTED', 2: 'UNDECIDED'}.get(rc, 'other'),
+               'failed_obligations': obs[:6], 'violation_lines': viol[:4], 'undecided': und[:3], 'witness': wit}
+        meta.setdefault('check_results', {})[tier] = res
+        meta['what_was_run'] = 'scratch copy of /repo HEAD + seeded/%s/patch.diff; VERIF_REPO=<copy> ./check %s --tier %s' % (sid, prop, tier)
+        json.dump(meta, open(os.path.join(d, 'meta.json'), 'w'), indent=1)
+        return sid, prop, res
     finally:
-        subprocess.run(['git', '-C', '/repo', 'checkout', '--', '.'], check=True)
-    obs = [l.strip() for l in out.split('\n') if l.strip().startswith('failed obligation:')]
-    viol = [l.strip() for l in out.split('\n') if l.startswith('VIOLATION')]
-    und = [l.strip()[:300] for l in out.split('\n') if l.startswith('UNDECIDED')]
-    res = {'tier': tier, 'exit': rc, 'wall_s': round(time.time() - t0), 'verdict': {0: 'MISSED (check passed)', 1: 'DETECTED', 2: 'UNDECIDED'}.get(rc, 'other'),
-           'failed_obligations': obs[:6], 'violation_lines': viol[:4], 'undecided': und[:3]}
-    meta.setdefault('check_results', {})[tier] = res
-    meta['what_was_run'] = 'git -C /repo apply seeded/%s/patch.diff; ./check %s --tier %s; git -C /repo checkout -- .' % (sid, prop, tier)
-    json.dump(meta, open(os.path.join(d, 'meta.json'), 'w'), indent=1)
-    print('%-10s %-4s %-9s %4ds  %s' % (sid, prop, res['verdict'].split()[0], res['wall_s'], (obs[0][19:140] if obs else (und[0][:120] if und else ''))))
+        shutil.rmtree(scratch, ignore_errors=True)
+
+with cf.ThreadPoolExecutor(max_workers=jobs) as pool:
+    for sid, prop, res in pool.map(one, ids):
+        if res is None:
+            print(sid, 'PATCH DOES NOT APPLY', flush=True); continue
+        obs, und = res['failed_obligations'], res['undecided']
+        print('%-10s %-4s %-9s %4ds  %s %s' % (sid, prop, res['verdict'].split()[0], res['wall_s'], (obs[0][19:130] if obs else (und[0][:110] if und else '')), 'WITNESS' if res.get('witness') else ''), flush=True)
